@@ -67,3 +67,20 @@ Theorem C17_driver_end_closed :
     exists p, prun (mkParams (c_jobs cf) (kept_of cf st)) pst0 tr = Some p /\ closed_ p = true.
 Proof. exact driver_end_closed. Qed.
 Print Assumptions C17_driver_end_closed.
+
+(* the clauses of the property for a finished run of the driver model, the kept databases spelled out *)
+Theorem C17_driver_finished_run_cleans_up :
+  forall cf sched st tr, wf_cfg cf -> drun cf (dst0 cf) sched = (st, tr) -> d_phase st = DEnd ->
+    (forall db s, In (PConnect db s) tr -> In (PClose db s) tr) /\
+    forall f, In f (c_files cf) ->
+      In (PCreate (f_db f)) tr /\
+      ((mem (f_db f) (kept_of cf st) = true /\ ~ In (PDrop (f_db f)) tr) \/
+       (mem (f_db f) (kept_of cf st) = false /\ count_occ pev_eq_dec tr (PDrop (f_db f)) = 1%nat)).
+Proof. exact driver_finished_run_cleans_up. Qed.
+Print Assumptions C17_driver_finished_run_cleans_up.
+
+(* at no point of any run does the stream hold more than [jobs] files (spawned and not yet reported) *)
+Theorem C17_driver_holds_at_most_jobs :
+  forall cf sched st tr, drun cf (dst0 cf) sched = (st, tr) -> (n_active (d_tasks st) <= c_jobs cf)%nat.
+Proof. exact driver_holds_at_most_jobs. Qed.
+Print Assumptions C17_driver_holds_at_most_jobs.
